@@ -1199,7 +1199,10 @@ func conv(t_dst, t_src types.Type, x value) value {
 			if sl.Elem().Underlying().(*types.Basic).Kind() == types.Byte {
 				return append([]value(nil), []value(sx)...)
 			}
-			// []rune of symbolic bytes: concretize
+			// []rune of symbolic bytes: ASCII bytes stay symbolic (decided per byte)
+			if rs, ok := asciiRunes(sx); ok {
+				return rs
+			}
 			bs := make([]byte, len(sx))
 			for i, e := range sx {
 				bs[i] = concValue(e, "runes").(uint8)
@@ -1232,6 +1235,9 @@ func conv(t_dst, t_src types.Type, x value) value {
 
 		case types.Rune:
 			x := x.([]value)
+			if st, ok := asciiString(x); ok {
+				return st
+			}
 			r := make([]rune, 0, len(x))
 			for i := range x {
 				r = append(r, concValue(x[i], "runes").(rune))
@@ -1523,4 +1529,48 @@ func fandbits[F floaty](x, y F) F {
 		*(*uint64)(unsafe.Pointer(&x)) &= *(*uint64)(unsafe.Pointer(&y))
 	}
 	return x
+}
+
+// asciiRunes converts string bytes to runes without concretising when every
+// symbolic byte is (decided to be) ASCII.
+func asciiRunes(sx symstr) ([]value, bool) {
+	out := make([]value, len(sx))
+	for i, e := range sx {
+		switch b := e.(type) {
+		case uint8:
+			if b >= 0x80 {
+				return nil, false
+			}
+			out[i] = int32(b)
+		case *Sym:
+			if !R.branch(bvCmp("bvult", b.T, mkConst(8, 0x80)), "rune-ascii") {
+				return nil, false
+			}
+			out[i] = symVal(mkZext(b.T, 32), types.Int32)
+		}
+	}
+	return out, true
+}
+
+// asciiString converts runes to a string without concretising when every
+// symbolic rune is (decided to be) ASCII.
+func asciiString(x []value) (value, bool) {
+	out := make([]value, len(x))
+	for i, e := range x {
+		switch r := e.(type) {
+		case int32:
+			if r < 0 || r >= 0x80 {
+				return nil, false
+			}
+			out[i] = uint8(r)
+		case *Sym:
+			if !R.branch(bvCmp("bvult", r.T, mkConst(32, 0x80)), "rune-ascii") {
+				return nil, false
+			}
+			out[i] = symVal(mkExtract(7, 0, r.T), types.Uint8)
+		default:
+			return nil, false
+		}
+	}
+	return mkStr(out), true
 }
